@@ -395,17 +395,23 @@ class Verdict:
 
 
 def model_values(z, m):
-    """z3 model -> {atom_index: float}"""
+    """z3 model -> {atom_index: float} (algebraic numbers through a 30-digit rational approximation)"""
     out = {}
     for i, v in z.avars.items():
         val = m.eval(v, model_completion=True)
+        x = float("nan")
         try:
-            out[i] = float(Fraction(val.numerator_as_long(), val.denominator_as_long()))
+            x = float(Fraction(val.numerator_as_long(), val.denominator_as_long()))
         except Exception:
             try:
-                out[i] = float(str(val.approx(17)).rstrip("?"))
+                r = val.approx(30)
+                x = float(Fraction(r.numerator_as_long(), r.denominator_as_long()))
             except Exception:
-                out[i] = float("nan")
+                try:
+                    x = float(val.as_decimal(25).rstrip("?"))
+                except Exception:
+                    x = float("nan")
+        out[i] = x
     return out
 
 
